@@ -65,13 +65,12 @@ def const_u32(t):
 def fallback_rules(rep, prog):
     cfg = prog.config
     # ---- F1
+    from . import floordom
     fb = prog.body(FL + "fallback::floor")
-    rt = ret_term(fb)
     bad = []
     for cls in COORD_CLASSES:
-        # the argument itself plays the role of the coordinate: rewrite param 1 into a recognisable accessor call
-        marked = _mark_param(rt)
-        r = floor_offset(prog, marked, "::COORD", cls)
+        # engine F: the function's MIR is interpreted with x = floor(x) + frac, branches followed per class
+        r = floordom.evaluate(prog, fb, cls, domain_bits=63)
         if r[0] == "unknown":
             raise common.Infra("C20.F1: fallback::floor has a form the floor analysis cannot classify (%s)" % r[1])
         if r[0] == "bad":
@@ -270,6 +269,11 @@ def caller_rules(rep, prog):
         n += 1
         ok = len(fl) >= 1 and all(last_seg(x).rstrip("f") in stems or last_seg(x) in stems for x in fl) and all(any(k in x for k in BACKEND[cfg]) for x in fl)
         rep.inst("C20.F5", "%s calls %s (expected a %s of back-end %s): %s" % (path.rsplit("::", 2)[-2] + "::" + path.rsplit("::", 1)[-1], fl, "/".join(stems), BACKEND[cfg][0], ok), config=cfg)
+        KNOWN = {"sin", "cos", "tan", "asin", "acos", "atan", "atan2", "sqrt", "floor", "abs", "exp", "powf", "log2", "rem_euclid", "recip_sqrt", "invsqrt"}
+        wrong_fn = [x for x in fl if (last_seg(x).rstrip("f") in KNOWN or last_seg(x) in KNOWN) and not (last_seg(x).rstrip("f") in stems or last_seg(x) in stems)]
+        wrong_backend = [x for x in fl if not any(k in x for k in BACKEND[cfg])]
+        if not ok and not wrong_fn and not wrong_backend:
+            raise common.Infra("C20.F5: %s reaches the float back-end through %s, which the delegation table does not know; classify it" % (path, fl))
         if not ok:
             rep.violate("C20.F5", "F5|%s" % path.rsplit("math::", 1)[-1], b.where(),
                         "%s does not call the %s function of the configured float back-end (calls %s)" % (path, "/".join(stems), fl), config=cfg)
